@@ -131,19 +131,22 @@ def repair_psi(l1, l2, psi4):
 
 
 @st.composite
-def psi_strategy(draw, l1, l2, forms=('none', 'zero', 'int', 'tuple', 'list')):
+def psi_strategy(draw, l1, l2, forms=('none', 'zero', 'int', 'int', 'tuple', 'tuple', 'list', 'list', 'npint', 'nptuple')):
     """Returns (psi value as passed to the library (JSON form), number of repairs)."""
     form = draw(st.sampled_from(forms))
     if form == 'none':
         return None, 0
     if form == 'zero':
         return 0, 0
-    if form == 'int':
+    if form in ('int', 'npint'):
         k = draw(st.integers(1, max(1, min(l1, l2))))
         n = 0
         while k > 0 and ref.degenerate_psi(l1, l2, (k, k, k, k)):
             k -= 1
             n += 1
+        if form == 'npint':
+            # one integer, as integer arithmetic on array shapes produces it (numpy.int64)
+            return {'form': 'npint', 'v': [k, k, k, k]}, n
         return k, n
     p = (draw(st.integers(0, l1)), draw(st.integers(0, l1)), draw(st.integers(0, l2)), draw(st.integers(0, l2)))
     # bias: many zeros so that single relaxations are frequent
@@ -157,6 +160,14 @@ def psi_strategy(draw, l1, l2, forms=('none', 'zero', 'int', 'tuple', 'list')):
 def psi_to_lib(psi):
     """JSON form -> value handed to the library."""
     if isinstance(psi, dict):
+        if psi['form'] in ('npint', 'nptuple'):
+            try:
+                import numpy as np
+            except ImportError:       # the NumPy-free interpreter: plain integers
+                return int(psi['v'][0]) if psi['form'] == 'npint' else tuple(psi['v'])
+            if np is None:
+                return int(psi['v'][0]) if psi['form'] == 'npint' else tuple(psi['v'])
+            return np.int64(psi['v'][0]) if psi['form'] == 'npint' else tuple(np.int64(v) for v in psi['v'])
         return tuple(psi['v']) if psi['form'] == 'tuple' else list(psi['v'])
     return psi
 
